@@ -78,6 +78,27 @@ func replayActionsMain(args []string) {
 				}
 			}
 		}
+		// the relative gain does not depend on the price unit: the same word with every price multiplied by 2^off (an asset
+		// quoted in millions, or in millionths) has bit for bit the same outcome - still exact on the lattice
+		for _, off := range []int{40, -40, 200, -200} {
+			sp := make([]float64, n)
+			for i, s := range steps {
+				sp[i] = math.Ldexp(1, s.P+off)
+			}
+			os2 := helper.ChanToSlice(strategy.Outcome(helper.SliceToChan(sp), actsChan(acts)))
+			checks++
+			if len(os2) != n {
+				bad(nh, "Outcome yields %d entries for %d (value, action) pairs (prices x 2^%d)", len(os2), n, off)
+				continue
+			}
+			for i, s := range steps {
+				want := math.Ldexp(1, s.W) - 1
+				if math.Float64bits(os2[i]) != math.Float64bits(want) {
+					bad(nh, "Outcome[%d] = %v, portfolio simulation says %v (prices %v actions %v)", i, os2[i], want, sp, acts)
+					break
+				}
+			}
+		}
 		// one entry per pair: the shorter stream decides
 		if n >= 2 {
 			o2 := helper.ChanToSlice(strategy.Outcome(helper.SliceToChan(prices), actsChan(acts[:n-1])))
